@@ -1,6 +1,9 @@
 """Shard worker: runs islamon.checks.<pid>.run(ctx) and writes the verdict log."""
 import sys, os, json, time, random, importlib, hashlib, signal, traceback, warnings, logging
 
+if __name__ == "__main__":  # one module identity: checks import islamon.worker (Watchdog, exc_site)
+    sys.modules.setdefault("islamon.worker", sys.modules["__main__"])
+
 import faulthandler
 faulthandler.enable()
 warnings.filterwarnings("ignore")
@@ -8,8 +11,8 @@ logging.disable(logging.CRITICAL)
 sys.setrecursionlimit(10000)
 
 
-class Watchdog(Exception):
-    pass
+class Watchdog(BaseException):
+    """BaseException so that `except Exception` / returns.safe inside the code under test cannot swallow it"""
 
 
 def _alarm(*_):
@@ -89,7 +92,7 @@ class Ctx:
         if self._deadlines:
             deadline = min(deadline, self._deadlines[-1])
         self._deadlines.append(deadline)
-        signal.setitimer(signal.ITIMER_REAL, max(0.01, deadline - now))
+        signal.setitimer(signal.ITIMER_REAL, max(0.01, deadline - now), 0.5)  # re-fires if a handler swallowed it
         try:
             v = fn(*a, **kw)
             return "ok", v
@@ -98,13 +101,15 @@ class Ctx:
                 raise  # the outer deadline expired: let the outer frame report it
             return "watchdog", None
         except Exception as e:
+            if "Watchdog" in repr(e):  # alarm raised inside a ctypes callback surfaces as ctypes.ArgumentError
+                return "watchdog", None
             self.last_exc = e
             return "exc", e
         finally:
             signal.setitimer(signal.ITIMER_REAL, 0)
             self._deadlines.pop()
             if self._deadlines:
-                signal.setitimer(signal.ITIMER_REAL, max(0.01, self._deadlines[-1] - time.time()))
+                signal.setitimer(signal.ITIMER_REAL, max(0.01, self._deadlines[-1] - time.time()), 0.5)
 
     # -- output -----------------------------------------------------------
     def dump(self, complete, path=None):
